@@ -20,24 +20,28 @@ NSrc == 2 + NPlugins                       \* 1 = environment, 2 = code, 3.. = p
 Builtin == 0                               \* owner of the SDK keys and of the service-name fallback
 Unset == 99
 
-VARIABLES srcs,    \* srcs[i] = [keys, schema] of source i (environment's schema is always "")
+VARIABLES srcs,    \* srcs[i] = [keys, schema, blank] of source i (environment's schema is always "");
+                   \*   blank: the service name it provides is an empty string
           pc,      \* 0 = choosing the sources; i in 1..NSrc = source i is merged next; NSrc + 1 = done
           acc,     \* the resource so far: [owner : Keys -> source index | Builtin | Unset, schema]
+          blankSvc,\* the service name currently in the resource is an empty string
           fellBack,\* the service-name fallback was applied
           kept     \* sources whose merge was refused because of incompatible schema URLs
 
-vars == <<srcs, pc, acc, fellBack, kept>>
+vars == <<srcs, pc, acc, blankSvc, fellBack, kept>>
 
 Init == srcs = <<>> /\ pc = 0 /\ acc = [owner |-> [k \in Keys |-> Unset], schema |-> ""] /\ fellBack = FALSE
+        /\ blankSvc = FALSE
         /\ kept = {}
 
-Provide(ks, sc) ==
+Provide(ks, sc, bl) ==
     /\ pc = 0 /\ Len(srcs) < NSrc
     /\ (Len(srcs) = 0 => sc = "")
-    /\ srcs' = Append(srcs, [keys |-> ks, schema |-> sc])
-    /\ UNCHANGED <<pc, acc, fellBack, kept>>
+    /\ (bl => ("svc" \in ks /\ Len(srcs) < 2))     \* only the environment or the code can supply an empty name here
+    /\ srcs' = Append(srcs, [keys |-> ks, schema |-> sc, blank |-> bl])
+    /\ UNCHANGED <<pc, acc, blankSvc, fellBack, kept>>
 
-Begin == pc = 0 /\ Len(srcs) = NSrc /\ pc' = 1 /\ UNCHANGED <<srcs, acc, fellBack, kept>>
+Begin == pc = 0 /\ Len(srcs) = NSrc /\ pc' = 1 /\ UNCHANGED <<srcs, acc, blankSvc, fellBack, kept>>
 
 MergeSchema(sa, sb) == IF sa = "" THEN sb ELSE IF sb = "" THEN sa ELSE IF sa = sb THEN sb ELSE "conflict"
 
@@ -51,15 +55,17 @@ MergeNext ==
     /\ pc \in 1..NSrc
     /\ LET m == Merged(acc, pc)
            conflict == MergeSchema(acc.schema, srcs[pc].schema) = "conflict"
-           \* Resource.create: after environment and code, a missing service name gets the fallback (with the code's schema)
-           needFb == pc = 2 /\ m.owner["svc"] = Unset
+           blankNow == IF conflict \/ "svc" \notin srcs[pc].keys THEN blankSvc ELSE srcs[pc].blank
+           \* Resource.create: after environment and code, a missing OR EMPTY service name gets the fallback
+           needFb == pc = 2 /\ (m.owner["svc"] = Unset \/ blankNow)
        IN /\ acc' = IF needFb THEN [m EXCEPT !.owner["svc"] = Builtin] ELSE m
+          /\ blankSvc' = IF needFb THEN FALSE ELSE blankNow
           /\ fellBack' = (fellBack \/ needFb)
           /\ kept' = IF conflict THEN kept \cup {pc} ELSE kept
     /\ pc' = pc + 1
     /\ UNCHANGED srcs
 
-Next == (\E ks \in SUBSET Keys, sc \in Schemas : Provide(ks, sc)) \/ Begin \/ MergeNext
+Next == (\E ks \in SUBSET Keys, sc \in Schemas, bl \in BOOLEAN : Provide(ks, sc, bl)) \/ Begin \/ MergeNext
         \/ (pc = NSrc + 1 /\ UNCHANGED vars)
 
 Spec == Init /\ [][Next]_vars
@@ -67,9 +73,13 @@ Spec == Init /\ [][Next]_vars
 (* C18 *)
 Done == pc = NSrc + 1
 ServiceNameAlways == Done => acc.owner["svc"] # Unset
+(* after Resource.create (environment and code) the service name is never an empty string *)
+ServiceNameNotBlankAfterCreate == pc = 3 => ~blankSvc
 (* later sources override earlier ones key by key (a source refused for its schema contributes nothing) *)
 LaterWins == Done => \A k \in Keys :
     LET givers == {i \in 1..NSrc : k \in srcs[i].keys /\ i \notin kept}
+        last == CHOOSE i \in givers : \A j \in givers : j <= i
     IN IF givers = {} THEN acc.owner[k] \in {Unset, Builtin}
-       ELSE acc.owner[k] = CHOOSE i \in givers : \A j \in givers : j <= i
+       ELSE \/ acc.owner[k] = last
+            \/ (k = "svc" /\ last <= 2 /\ srcs[last].blank /\ acc.owner[k] = Builtin)    \* an empty name falls back
 =============================================================================
